@@ -6,6 +6,13 @@ mod varint;
 pub use frame::StreamId;
 pub use message::{AddressType, MessageType};
 pub use protocol::{Control, Wire, WireReader, WireSession, WireWriter};
+
+/// Verification hook (H1): re-exports of the otherwise private frame and varint codecs.
+#[cfg(feature = "verif")]
+pub mod verif {
+    pub use super::frame::{Control, Frame, FrameData, StreamKind, Version, PROTOCOL_VERSION_STRING};
+    pub use super::varint::{payload, BoundsExceeded, VarInt};
+}
 use radicle::node::UserAgent;
 
 use std::collections::BTreeMap;
